@@ -19,7 +19,12 @@ assertDataFramesEqual / check_dataframe:
     and absent from the actual frame -> fail; an actual column that is not in
     the reference and is selected by check_extra_cols -> fail.
   * relative column order on the columns selected by check_order that both
-    frames have.
+    frames have (documentation: "restriction of fields whose (relative) order
+    should be compared").  A reference column that the actual frame lacks
+    has no position: if it is selected for neither the type nor the data
+    check its absence is not a difference of any checked aspect, whether or
+    not check_order names it - the relative order of the columns the frames
+    share is what is compared.
   * column types on the columns selected by check_types, at the type-matching
     level (strict = same dtype; medium / permissive only decided for the
     clear-cut pairs, everything else is unspecified).
@@ -35,8 +40,12 @@ difference below 1e-6 (docstring says "no rounding", the default in the code
 is 6); values of different kinds (bool vs number, text vs number); order of
 rows with equal sort keys when the two key columns differ; where nulls sort;
 a sortby / condition column that is missing from the actual frame but is not
-selected for the type or data check (whatever else differs); a column selected only for the order check that is
-missing; float32 columns whose values differ by less than 1e-3.
+selected for the type or data check (whatever else differs); float32
+columns whose values differ by less than 1e-3.
+
+The conditions of the statement are symmetric in the two frames whenever the
+frames have the same column names in the same order (every selection then
+resolves to the same columns on either side): see `symmetric_point`.
 """
 import itertools
 import struct
@@ -49,6 +58,9 @@ PASS, FAIL, UNSPEC = 'pass', 'fail', 'unspec'
 NUMPY_INT = ('int64', 'int32')
 NUMPY_FLOAT = ('float64', 'float32')
 NUMERIC_PLAIN = NUMPY_INT + NUMPY_FLOAT + ('bool',)
+# numeric / boolean in any representation (numpy or nullable extension)
+NUMBERLIKE = NUMPY_INT + NUMPY_FLOAT + ('Int64', 'Int32', 'Float64', 'bool',
+                                        'boolean')
 STRING_DT = ('str', 'string')
 DATETIME = ('datetime64[ns]', 'datetime64[us]')
 
@@ -73,7 +85,6 @@ def type_rel(a, r, level):
     # medium / permissive: only the clear-cut pairs
     if pair == set(NUMPY_INT) or pair == set(NUMPY_FLOAT):
         return 'match'                      # bit-width change only
-    num = NUMPY_INT + NUMPY_FLOAT
     if level == 'medium':
         if (a in NUMPY_INT and r in NUMPY_FLOAT) or \
                 (a in NUMPY_FLOAT and r in NUMPY_INT):
@@ -81,8 +92,9 @@ def type_rel(a, r, level):
     if level == 'permissive':
         if a in NUMERIC_PLAIN and r in NUMERIC_PLAIN:
             return 'match'                  # bool / int / float interchange
+    # a number / boolean column is not a text or a date column at any level
     for (x, y) in ((a, r), (r, a)):
-        if x in num and (y in DATETIME or y in STRING_DT):
+        if x in NUMBERLIKE and (y in DATETIME or y in STRING_DT):
             return 'mismatch'
     return 'unspec'
 
@@ -261,8 +273,9 @@ def verdict(actual, ref, opts):
         if c not in acols:
             if c in T or c in D:
                 fails.add('missing')
-            elif c in O:
-                unspec.add('missing-order-only')
+            # selected for the order check only (or for nothing): it has no
+            # position in the actual frame, so it takes no part in the
+            # RELATIVE order of the columns both frames have
     for c in anames:
         if c not in rcols and c in X:
             fails.add('extra')
@@ -328,3 +341,14 @@ def verdict(actual, ref, opts):
     if unspec:
         return (UNSPEC, sorted(unspec))
     return (PASS, [])
+
+
+def symmetric_point(actual, ref, opts):
+    """True when exchanging the two frames cannot change the verdict the
+    statement asks for: same column names in the same order on both sides
+    (so check_data / check_types / check_order / check_extra_cols / sortby
+    resolve to the same columns whichever frame is the reference) - every
+    condition of the statement (same columns, relative order, same types at
+    the level, same number of rows, equal values) is then a symmetric
+    relation between the two frames."""
+    return [c[0] for c in actual] == [c[0] for c in ref]
